@@ -711,6 +711,12 @@ func parentMain(c *Ctx) int {
 	srv := newServer(c, pd.ID)
 	defer srv.close()
 	maxReport := 6
+	if os.Getenv("VERIF_LIST_SIGS") != "" {
+		for _, sig := range a.violOrder {
+			vr := a.viol[sig]
+			fmt.Printf("SIG %s\t%d\t%s\n", sig, vr.count, strings.ReplaceAll(trunc(vr.v.Detail, 400), "\n", " | "))
+		}
+	}
 	for i, sig := range a.violOrder {
 		vr := a.viol[sig]
 		if i >= maxReport {
